@@ -635,6 +635,61 @@ func (r *EngineRunner) Exec(f []string) (res string) {
 			s = "err " + EngErr(err)
 		}
 		return s + " order " + strings.Join(ids, ",") + r.takeEvents(false)
+	case "mergei":
+		// E mergei <pro>|<slot>|<slot>...   each a ';'-list of p,<key>,<val> / d,<key> ("-" = nothing):
+		// Put / Delete calls of another client that run after Merge released the engine lock and before
+		// the scan starts (pro), and right before the scan looks up its i-th record (slots)
+		parts := strings.Split(f[2], "|")
+		runOps := func(spec string) {
+			if spec == "-" || spec == "" {
+				return
+			}
+			for _, o := range strings.Split(spec, ";") {
+				x := strings.Split(o, ",")
+				k, _ := ParseTok(x[1])
+				if x[0] == "p" {
+					v, _ := ParseTok(x[2])
+					err := r.db.Put(k, v)
+					r.ref.put(r, k, v, err)
+				} else {
+					err := r.db.Delete(k)
+					r.ref.del(r, k, err)
+				}
+			}
+		}
+		r.mergeSeen = nil
+		r.installMergeHook()
+		slot := 1
+		savedFs := kv.VerifFsEvent
+		kv.VerifFsEvent = func(kind string, a string, b string) {
+			if savedFs != nil {
+				savedFs(kind, a, b)
+			}
+			if kind == "mkdir" && a == r.mergeDir() {
+				runOps(parts[0])
+			}
+		}
+		kv.VerifSched = func(label string) {
+			if label == "merge.scan" {
+				if slot < len(parts) {
+					runOps(parts[slot])
+				}
+				slot++
+			}
+		}
+		err := r.db.Merge()
+		kv.VerifSched = nil
+		kv.VerifFsEvent = savedFs
+		var ids []string
+		for _, id := range r.mergeSeen {
+			ids = append(ids, fmt.Sprintf("%d", id))
+		}
+		r.ref.merge(r, err)
+		s := "ok"
+		if err != nil {
+			s = "err " + EngErr(err)
+		}
+		return s + " order " + strings.Join(ids, ",") + r.takeEvents(false)
 	case "backup":
 		dst := filepath.Join(r.Root, f[2])
 		r.dirs[f[2]] = dst
